@@ -351,7 +351,7 @@ PROPS = {
              "three times in isolation, is a violation. Non-trivial: input differs from its seed and processing got past the file header, or the decoder program executed >= 3 operations; fuzzing: inputs kept by "
              "libFuzzer for new coverage.",
         level_text="structure-aware mutation search plus coverage-guided fuzzing under ASan+UBSan with an allocation cap; tools run as subprocesses",
-        level_note="time/memory proportionality is checked through the allocation cap, the stack limit and a conservative hang rule (timeouts are inconclusive); uninitialised reads only via semantic oracles",
+        level_note="time/memory proportionality is checked through the allocation cap (64 MiB per allocation for inputs <= 1 MiB), the default stack limit and a per-case time limit (120 s, confirmed by three isolated replays; a search budget that runs out is inconclusive, never a violation); uninitialised reads through the garbage differential (own storage, fresh heap blocks, stack) in the quick tier and valgrind memcheck on a slice of the cases in the thorough tier",
         technique="property-based testing (structure-aware mutation, rapidcheck) + libFuzzer coverage-guided fuzzing, sanitizers as oracle",
         assumptions=["std::bad_alloc / std::length_error are accepted failures unless the allocation cap fired"],
         extra_harnesses=["cdns-merge", "cdns-itemcount", "cdns-items", "cdns-blocks", "cdns-preamble", "mutread", "mutread_plain", "fuzz_reader", "fuzz_decoder"],
